@@ -679,6 +679,10 @@ def run(chk):
     chk.traces += ok
     chk.cov['b3_traces'] = len(traces)
     chk.cov['b3_receiver_evaluations'] = sum(len(t['ev']) for t in traces)
+    # the stage before: how a service entry and the library become the request that is judged (RequestResolution.tla) - the
+    # mode's OSNR threshold, baud rate, min_spacing, penalties and the "undetermined" mode of the automatic selection
+    from harness import resolution_util
+    resolution_util.run_part(chk)
     chk.cov['b3_max_updates_on_one_receiver'] = acc['max_nup']
     chk.cov['tolerance_composition_1e-9'] = 60
     chk.cov['measured_composition_deviation_1e-9'] = acc['composition']
@@ -763,4 +767,13 @@ def _mut_adddrop_at_every_roadm():
 MUTANTS = {'auto_margin_dropped': _mut_auto_margin_dropped, 'tx_osnr_accumulates': _mut_tx_osnr_accumulates,
            'adddrop_at_every_roadm': _mut_adddrop_at_every_roadm, 'lowest_bitrate_first': _mut_lowest_bitrate_first,
            'reverse_ignored': _mut_reverse_ignored, 'penalty_clamped': _mut_penalty_clamped}
+def _resolution_mutant(name):
+    def f():
+        from harness import resolution_util
+        resolution_util.MUTANTS[name]()
+    return f
+
+
+MUTANTS.update({'resolution_per_channel_m_floor': _resolution_mutant('per_channel_m_floor'),
+                'resolution_fmax_not_recomputed': _resolution_mutant('fmax_not_recomputed')})
 EXTRA_MUTANTS = {'update_from_previous': _mut_update_from_previous}      # also killed; kept out of the selftest budget
